@@ -59,7 +59,10 @@ SVG = [({'xmldecl': False}, ['--no-xmldecl']), ({'svgns': False}, ['--no-namespa
        ({'unit': 'mm'}, ['--unit', 'mm']), ({'svgversion': 1.1}, ['--svgversion', '1.1']), ({'svgversion': 2.0}, ['--svgversion', '2']),
        ({'svgversion': 1.0}, ['--svgversion', '1']),
        ({'encoding': 'iso-8859-1'}, ['--svgencoding', 'iso-8859-1']), ({'draw_transparent': True}, ['--draw-transparent']),
-       ({'svgclass': None, 'lineclass': None}, ['--no-classes']), ({'desc': '\u20ac uro \u4e66'}, ['--desc', '\u20ac uro \u4e66'])]
+       ({'svgclass': None, 'lineclass': None}, ['--no-classes']), ({'desc': '\u20ac uro \u4e66'}, ['--desc', '\u20ac uro \u4e66']),
+       # text that looks like percent-encoding (the data URI must escape the %), explicit values of the options a route defaults differently
+       ({'title': 'Save 20%25 today %41 %zz 100%'}, ['--title', 'Save 20%25 today %41 %zz 100%']), ({'svgid': 'a%20b'}, ['--svgid', 'a%20b']),
+       ({'nl': True}, None), ({'xmldecl': True}, None), ({'svgns': True}, None)]
 MENU = {
     'svg': COMMON + DARK + LIGHT + TRANS + MODCOL[:4] + SVG + FLOATSCALE,
     'svgz': COMMON[:2] + DARK[:1] + LIGHT + SVG[:4] + [({'compresslevel': 1}, None)],
